@@ -17,10 +17,26 @@ terminal on the master from inside the patched calls (single-threaded, determini
 `monotonic` is a virtual clock, `select` polls, `sleep` does not sleep).  Every tracked
 call (termios.tcgetattr / tcsetattr / tcdrain, os.read / os.write on the tty, select,
 monotonic, the `more` predicate; for draw() also stream write / flush, frame renders,
-sleep, the interrupt handler, RenderData.finalize) is logged, and the k-th one raises."""
+sleep, the interrupt handler, RenderData.finalize -- i.e. the renderable's `_finalize_render_data_`
+hook) is logged, and the k-th one raises -- wherever it stands, the operation's own clean-up included.
+
+Round 4:
+  * "async": {"k": int | null, "kind": "KI" | "Exc"}: an ASYNCHRONOUS exception at the k-th SIGNAL POINT
+    executed inside package code while the operation runs (k null: counting run, result "npoints"):
+    the places where CPython's evaluation loop polls for pending signals and would run a raising
+    handler -- after a call returns, at a function's entry, on a backward jump (class SigPoints);
+    this is `asyncfault.py` at bytecode instead of line granularity, restricted to the positions a
+    real signal can take (a 'line' event between the return of the previous call and the restoring
+    `tcsetattr(...)` that follows it in a finally block is not one).  The clean-up blocks are included.
+  * the attributes are read THREE times: before the call, when the call has returned / raised while
+    the exception is still referenced ("held"), and after the exception has been released and
+    `gc.collect()` ("after"): a restore that is deferred to the death of some object, or replayed
+    late by one, differs in one of the two."""
 import implenv  # noqa: F401  (sys.path, stubs)
 
 import copy
+import dis
+import gc
 import json
 import os
 import pty
@@ -235,6 +251,127 @@ class Out:
         self.f.close()
 
 
+_PKG = os.path.join(os.path.realpath(os.environ.get("VERIF_REPO", "/repo")), "src", "term_image") + os.sep
+_CALLS = {"CALL", "CALL_FUNCTION_EX", "CALL_KW", "INSTRUMENTED_CALL", "INSTRUMENTED_CALL_FUNCTION_EX"}
+_POLLS = {"RESUME", "INSTRUMENTED_RESUME", "JUMP_BACKWARD", "INSTRUMENTED_JUMP_BACKWARD"}
+# functions of this driver that stand for C functions of the real program (termios.*, os.read / os.write,
+# select, monotonic, sleep, the methods of the text stream): the evaluation loop polls when they return
+_C_LIKE = {"p_tcgetattr", "p_tcsetattr", "p_tcdrain", "p_select", "p_sleep", "read", "write", "flush", "__call__",
+           "isatty", "fileno"}
+
+
+class SigPoints:
+    """Asynchronous exception at the k-th SIGNAL POINT executed in package code (k None: count them).
+
+    CPython runs signal handlers -- and raises what they raise, e.g. KeyboardInterrupt for SIGINT, into the
+    running code -- only where the evaluation loop polls its "eval breaker": at RESUME (entry of a Python
+    function, resumption of a generator), on JUMP_BACKWARD, and when a CALL* of a NON-Python callable has
+    returned (a call of a Python function polls at the callee's RESUME, not on return).  Enumerated here, for
+    frames of the package:
+      * the instruction following one that polled (RESUME, JUMP_BACKWARD, a CALL* during which no Python
+        frame was entered from this frame);
+      * the entry of a Python function outside the package called from a package frame (for the package
+        that is the call raising before any effect); entries of package functions are covered by the
+        first rule in their own frame."""
+
+    def __init__(self, k=None, exc=KeyboardInterrupt):
+        self.k, self.exc = k, exc
+        self.count = 0
+        self.fired = False
+        self.where = None
+        self._ops = {}     # code -> {offset: opname}
+        self._prev = {}    # id(frame) -> opname of the instruction executed last in that package frame
+        self._pycall = {}  # id(frame) -> a Python frame was entered from it during the current instruction
+        self._inpkg = {}
+
+    def _in(self, code):
+        ok = self._inpkg.get(code)
+        if ok is None:
+            ok = self._inpkg[code] = os.path.realpath(code.co_filename).startswith(_PKG)
+        return ok
+
+    def _point(self, where):
+        self.count += 1
+        if self.k is not None and self.count == self.k and not self.fired:
+            self.fired = True
+            self.where = where
+            raise KeyboardInterrupt() if self.exc is KeyboardInterrupt else self.exc("asynchronous fault")
+
+    def _global(self, frame, event, arg):
+        if event != "call":
+            return None
+        code = frame.f_code
+        back = frame.f_back
+        inpkg = self._in(code)
+        if back is not None and id(back) in self._prev:
+            c_like = not inpkg and code.co_filename == __file__ and code.co_name in _C_LIKE
+            if not c_like:
+                self._pycall[id(back)] = True
+                if not inpkg:
+                    self._point([os.path.basename(back.f_code.co_filename), back.f_lineno, back.f_code.co_name,
+                                 "entry of " + code.co_name])
+        if not inpkg:
+            return None
+        frame.f_trace_opcodes = True
+        frame.f_trace_lines = False
+        self._prev[id(frame)] = "RESUME"
+        return self._local
+
+    def _local(self, frame, event, arg):
+        if event == "opcode":
+            code = frame.f_code
+            ops = self._ops.get(code)
+            if ops is None:
+                ops = self._ops[code] = {i.offset: i.opname for i in dis.get_instructions(code)}
+            fid = id(frame)
+            prev = self._prev.get(fid)
+            pycall = self._pycall.pop(fid, False)
+            self._prev[fid] = ops.get(frame.f_lasti, "?")
+            if prev in _POLLS or (prev in _CALLS and not pycall):
+                self._point([os.path.basename(code.co_filename), frame.f_lineno, code.co_name,
+                             "before " + ops.get(frame.f_lasti, "?") + " (after " + prev + ")"])
+        elif event == "return":
+            self._prev.pop(id(frame), None)
+            self._pycall.pop(id(frame), None)
+        return self._local
+
+    _warm = False
+
+    @classmethod
+    def _warm_up(cls):
+        # the first frame ever switched to opcode tracing in a process delivers no 'opcode' event
+        # (CPython 3.12): spend that one on a dummy
+        def dummy():
+            return 0
+
+        def tr(frame, event, arg):
+            frame.f_trace_opcodes = True
+            return tr
+        old = sys.gettrace()
+        sys.settrace(tr)
+        try:
+            dummy()
+            dummy()
+        finally:
+            sys.settrace(old)
+        cls._warm = True
+
+    def __enter__(self):
+        if not SigPoints._warm:
+            SigPoints._warm_up()
+        self._old = sys.gettrace()
+        sys.settrace(self._global)
+        return self
+
+    def __exit__(self, *a):
+        sys.settrace(self._old)
+        return False
+
+
+class AsyncExc(Exception):
+    """the Exception a (non-default) signal handler raises"""
+
+
 class Anim(Renderable):
     size = Size(3, 2)
 
@@ -297,8 +434,20 @@ def make_more(spec):
     return more
 
 
+_WARMED = set()
+
+
 def run_case(case):
     global INJ
+    if case.get("async") is not None:
+        # the same operation once untraced and fault-free first (once per scenario and process): lazily
+        # initialised state of the package (caches, first-call paths) is then the same whatever ran before
+        # in this process, so that the k-th signal point is the same position in the counting run, the
+        # faulted run and a replay
+        wkey = json.dumps([case["fn"], case["mode"], case["attrs"]], sort_keys=True)
+        if wkey not in _WARMED:
+            _WARMED.add(wkey)
+            run_case({k: v for k, v in case.items() if k not in ("async", "fault")} | {"fault": None})
     mode = case["mode"]
     attrs = make_attrs(case["attrs"])
     # ---- prepare the terminal
@@ -312,6 +461,7 @@ def run_case(case):
     before = norm(R_TCGETATTR(SLAVE))
     INJ = inj = Inject(case.get("fault"), before)
     res = {"abort": None, "exc": None}
+    held = before
     # ---- patch
     saved_q = (U._queries_enabled, U._query_timeout)
     termios.tcgetattr, termios.tcsetattr, termios.tcdrain = p_tcgetattr, p_tcsetattr, p_tcdrain
@@ -326,7 +476,7 @@ def run_case(case):
         fn = case["fn"]
         if fn == "draw":
             sys.stdout = out = Out()
-        try:
+        def operation():
             if fn == "read_tty":
                 kw = {}
                 more = make_more(mode)
@@ -347,13 +497,30 @@ def run_case(case):
                        check_size=mode.get("check_size", True))
             else:
                 raise Abort(f"unknown fn {fn}")
+
+        asy = case.get("async")
+        tracer = None
+        if asy is not None:
+            tracer = SigPoints(asy.get("k"), KeyboardInterrupt if asy.get("kind", "KI") == "KI" else AsyncExc)
+        try:
+            if tracer is not None:
+                with tracer:
+                    operation()
+            else:
+                operation()
             res["out"] = 0
+            held = norm(R_TCGETATTR(SLAVE))
         except KeyboardInterrupt as e:
+            held = norm(R_TCGETATTR(SLAVE))  # the exception (traceback, frames, their locals) is still referenced
             res["out"], res["exc"] = 1, repr(e)
         except Abort as e:
+            held = norm(R_TCGETATTR(SLAVE))
             res["out"], res["abort"] = 0, str(e)
         except Exception as e:
+            held = norm(R_TCGETATTR(SLAVE))
             res["out"], res["exc"] = 2, repr(e)[:200]
+        if tracer is not None:
+            res["npoints"], res["fired"], res["where"] = tracer.count, tracer.fired, tracer.where
     finally:
         inj.active = False
         termios.tcgetattr, termios.tcsetattr, termios.tcdrain = R_TCGETATTR, R_TCSETATTR, R_TCDRAIN
@@ -366,21 +533,24 @@ def run_case(case):
         if out is not None:
             out.close()
         INJ = None
+    gc.collect()  # whatever was kept alive by the exception is gone now
     after = norm(R_TCGETATTR(SLAVE))
     drain_master()
-    res.update(events=inj.events, ncalls=inj.n, restored=(before == after), before=before, after=after)
+    res.update(events=inj.events, ncalls=inj.n, restored=(before == held == after), before=before, held=held, after=after)
     return res
 
 
 def main():
     cases = json.loads(sys.stdin.read())
+    gc.collect()
+    gc.freeze()  # what is alive now is not re-examined by the gc.collect() of every run
     results = []
     for c in cases:
         try:
             results.append(run_case(c))
         except BaseException as e:  # the harness itself failed on this case
             results.append({"abort": f"driver error: {type(e).__name__}: {e}", "events": [], "ncalls": 0, "out": 0,
-                            "restored": True, "before": [], "after": [], "exc": None})
+                            "restored": True, "before": [], "held": [], "after": [], "exc": None})
     REAL_STDOUT.write(json.dumps(results))
     REAL_STDOUT.flush()
 
